@@ -275,6 +275,14 @@ AsConj(e, d) == IF Has(e, "as") THEN (IF e.as \in ContentConjs THEN e.as ELSE "T
 \* outcome conjunct: a call on a healthy file system returns ok
 OutcomeFails(e) == IF e.outcome = "ok" \/ aux.fault THEN {} ELSE {"C01.outcome"}
 
+\* binding of AbyBuf!Flush: the writes a map-level flush issues (syscall log, field "wr": <<file, offset,
+\* length>>) come file by file in the order val, key, htx, in ascending offsets inside a file, chunk aligned
+FileRank(f) == CASE f = "val" -> 1 [] f = "key" -> 2 [] OTHER -> 3
+FlushOrderOK(w) == /\ \A i \in 1..(Len(w) - 1) :
+                        \/ FileRank(w[i][1]) < FileRank(w[i + 1][1])
+                        \/ (w[i][1] = w[i + 1][1] /\ w[i][2] < w[i + 1][2])
+                   /\ \A i \in 1..Len(w) : w[i][2] % 4096 = 0
+
 \* sync events: each of the three files got an OS sync of the right flavour (or is already covered)
 \* evidence of the OS syncs issued during the call: the syscall log (strace, field "sys") when the trace
 \* has it, else the io-trace hook (field "io")
@@ -380,7 +388,17 @@ Proc(e) ==
                 (IF e.outcome # "ok" \/ e.res = M!MIsEmpty(mm) THEN {} ELSE {"C01.result"})]
       [] e.ev = "iter" ->
             IF ~known THEN base ELSE
-            [base EXCEPT !.fails = OutcomeFails(e) \cup (IF e.outcome = "ok" THEN IterFails(e, mm) ELSE {})]
+            [base EXCEPT !.fails = OutcomeFails(e) \cup (IF e.outcome = "ok" THEN IterFails(e, mm) ELSE {}),
+                         \* binding of AbyScan: when the design state is tracked, the ORDER in which the real iterator
+                         \* yields is the one the transcribed bitmap scan predicts (a mismatch is design drift only:
+                         \* the property does not constrain the order)
+                         !.drift = IF tracked /\ e.outcome = "ok" /\ ~e.overrun
+                                   THEN LET it == Iterate(st[m])
+                                            pred == CASE e.flavour = "keys"   -> [i \in 1..Len(it.items) |-> <<it.items[i][1], 0>>]
+                                                      [] e.flavour = "values" -> [i \in 1..Len(it.items) |-> <<0, it.items[i][2]>>]
+                                                      [] OTHER                -> it.items
+                                        IN IF pred = e.items /\ it.hints = e.hints THEN "" ELSE "iteration order or hints differ from AbyScan"
+                                   ELSE ""]
       [] e.ev = "dump" ->
             IF ~known THEN base ELSE
             [base EXCEPT !.fails = OutcomeFails(e) \cup
@@ -403,6 +421,7 @@ Proc(e) ==
                 covered == Get0(aux.synced, m, FALSE)
             IN [base EXCEPT !.aux = [aux EXCEPT !.dur = Set(aux.dur, m, ok /\ known),
                                                 !.synced = Set(aux.synced, m, syn \/ (covered /\ ok))],
+                            !.drift = IF Has(e, "wr") /\ ~FlushOrderOK(e.wr) THEN "flush write order differs from AbyBuf (val, key, htx; ascending chunk-aligned offsets)" ELSE "",
                             !.fails = (IF ok \/ aux.fault THEN {} ELSE {"C03.outcome"})
                                       \cup (IF e.ev = "flush" \/ ~ok \/ syn \/ covered THEN {} ELSE {"C03.sync_calls"})]
       [] e.ev \in {"db_sync_all", "db_sync_data"} ->
